@@ -1,4 +1,5 @@
 import NmVerif.NN.PoolLemmas
+import NmVerif.NN.PoolReduceLemmas
 import NmVerif.NN.ConvLemmas
 import NmVerif.NN.Conv2dLemmas
 /-
@@ -80,6 +81,126 @@ theorem pool_window_in_bounds (lead li : List Nat) (H W kh kw sh sw i j : Nat) (
   simp at hmem
 
 example : PoolDom 5 3 2 ∧ poolExtent 5 3 2 true = 2 := by decide
+
+/-! ## pooling: the result (reducer applied to the window) -/
+
+open NmVerif.Reduce in
+/-- **max_pool2d = left fold of `maximum` over exactly the window, first element as the initial value.**
+    For an input `lead ++ [H, W]` of ANY element type with a `<`, every kernel that fits, every stride, floor and ceil
+    mode: the view exists, has the PyTorch shape, and the element at `li ++ [i, j]` is
+    `foldl maximum w₀ [w₁, …]` over the values at the reference (clipped) window `specWindow` in row-major order
+    (`maximum t u = t > u ? t : u`, `foldFirst … none` = start from the first element — no initial value enters, which
+    is what fixes/C17-max-pool-initial repaired) — and it is defined (the window is never empty). -/
+theorem max_pool_eq_window_fold {α : Type} [LT α] [DecidableRel (α := α) (· < ·)] (x : Arr α) (lead li : List Nat)
+    (H W kh kw sh sw i j : Nat) (ceil : Bool) (hx : x.shape = lead ++ [H, W])
+    (hH : PoolDom H kh sh) (hW : PoolDom W kw sw)
+    (hidx : InShape (li ++ [i, j]) (lead ++ [poolExtent H kh sh ceil, poolExtent W kw sw ceil]))
+    (hli : InShape li lead) :
+    ∃ v, maxPool2d x [kh, kw] [sh, sw] ceil = some v ∧
+      v.shape = lead ++ [poolOutSpec H kh sh ceil, poolOutSpec W kw sw ceil] ∧
+      v.get (li ++ [i, j]) = foldFirst maximum none ((specWindow li H W kh kw sh sw i j).map x.get) ∧
+      ∃ y, v.get (li ++ [i, j]) = some y := by
+  have hij := inShape_last2 hli hidx
+  have h1 := pool_start_lt hH hij.1
+  have h2 := pool_start_lt hW hij.2
+  have hel := maxPoolElem_eq hli hH.1 hW.1 h1 h2 x hx
+  refine ⟨⟨lead ++ [poolOutSpec H kh sh ceil, poolOutSpec W kw sw ceil], maxPoolElem x [kh, kw] [sh, sw]⟩, ?_, rfl, hel, ?_⟩
+  · simp only [maxPool2d, hx, pool_out_shape_eq_formula lead H W kh kw sh sw ceil hH hW, Option.map_some]
+  · show ∃ y, maxPoolElem x [kh, kw] [sh, sw] (li ++ [i, j]) = some y
+    rw [hel]
+    obtain ⟨win, hw, hne, _⟩ := pool_window_in_bounds lead li H W kh kw sh sw i j ceil hH hW hidx hli
+    rw [pool_elem_eq_window_reduce lead li H W kh kw sh sw i j ceil hH hW hidx hli, Option.some.injEq] at hw
+    exact foldFirst_some_of_ne _ (by rw [hw]; simpa using hne)
+
+/-- non-vacuity: 3×3 input `[[-5,-7,-6],[-9,-8,-4],[-3,-2,-1]]` (all negative: an initial value 0 would win), kernel 2,
+    stride 2, ceil mode: windows overhang, output 2×2 = `[[-5,-4],[-2,-1]]` -/
+example :
+    let x : Arr Int := ⟨[3, 3], fun d => match d with | [a, b] => [-5, -7, -6, -9, -8, -4, -3, -2, -1].getD (3 * a + b) 0 | _ => 0⟩
+    (maxPool2d x [2, 2] [2, 2] true).map (fun v => (v.shape, (allIdx v.shape).map v.get))
+      = some ([2, 2], [some (-5), some (-4), some (-2), some (-1)]) := by decide
+
+open NmVerif.Reduce in
+/-- over the integers (and so for integer-valued data) that fold is the greatest element of the window -/
+theorem max_pool_int_is_greatest (x : Arr Int) (lead li : List Nat)
+    (H W kh kw sh sw i j : Nat) (ceil : Bool) (hx : x.shape = lead ++ [H, W])
+    (hH : PoolDom H kh sh) (hW : PoolDom W kw sw)
+    (hidx : InShape (li ++ [i, j]) (lead ++ [poolExtent H kh sh ceil, poolExtent W kw sw ceil]))
+    (hli : InShape li lead) :
+    ∃ v m, maxPool2d x [kh, kw] [sh, sw] ceil = some v ∧ v.get (li ++ [i, j]) = some m ∧
+      (∃ p ∈ specWindow li H W kh kw sh sw i j, x.get p = m) ∧
+      ∀ p ∈ specWindow li H W kh kw sh sw i j, x.get p ≤ m := by
+  obtain ⟨v, hv, _, hel, _⟩ := max_pool_eq_window_fold x lead li H W kh kw sh sw i j ceil hx hH hW hidx hli
+  cases hwin : specWindow li H W kh kw sh sw i j with
+  | nil =>
+    obtain ⟨win, hw, hne, _⟩ := pool_window_in_bounds lead li H W kh kw sh sw i j ceil hH hW hidx hli
+    rw [pool_elem_eq_window_reduce lead li H W kh kw sh sw i j ceil hH hW hidx hli, Option.some.injEq] at hw
+    exact absurd (hw ▸ hwin) hne
+  | cons p0 rest =>
+    rw [hwin] at hel
+    obtain ⟨hmem, hge⟩ := foldl_maximum_int (rest.map x.get) (x.get p0)
+    refine ⟨v, _, hv, hel, ?_, ?_⟩
+    · have : (rest.map x.get).foldl maximum (x.get p0) ∈ (p0 :: rest).map x.get := by simpa using hmem
+      obtain ⟨p, hp, hpe⟩ := List.mem_map.1 this
+      exact ⟨p, hp, hpe⟩
+    · intro p hp
+      exact hge (x.get p) (by simpa using List.mem_map_of_mem (f := x.get) hp)
+
+example : PoolDom 3 2 2 ∧ InShape ([] ++ [1, 1]) ([] ++ [poolExtent 3 2 2 true, poolExtent 3 2 2 true]) := by decide
+
+open NmVerif.Reduce in
+/-- **avg_pool2d = (sum of the window, folded from its first element in row-major order) / (number of window
+    elements).**  `add` and `divn` (division by a count) are abstract operations of the promoted element type.  The
+    divisor the code uses (`index::product` of the shape of the *clipped* slice) is the number of elements actually
+    inside the input: `(min(s_h·i + k_h, H) − s_h·i) · (min(s_w·j + k_w, W) − s_w·j)` — under ceil-mode overhang it is
+    smaller than `k_h·k_w`. -/
+theorem avg_pool_eq_window_mean {α : Type} (add : α → α → α) (divn : α → Nat → α) (x : Arr α) (lead li : List Nat)
+    (H W kh kw sh sw i j : Nat) (ceil : Bool) (hx : x.shape = lead ++ [H, W])
+    (hH : PoolDom H kh sh) (hW : PoolDom W kw sw)
+    (hidx : InShape (li ++ [i, j]) (lead ++ [poolExtent H kh sh ceil, poolExtent W kw sw ceil]))
+    (hli : InShape li lead) :
+    ∃ v, avgPool2d add divn x [kh, kw] [sh, sw] ceil = some v ∧
+      v.shape = lead ++ [poolOutSpec H kh sh ceil, poolOutSpec W kw sw ceil] ∧
+      v.get (li ++ [i, j]) = (foldFirst add none ((specWindow li H W kh kw sh sw i j).map x.get)).map
+        (fun S => divn S ((min (sh * i + kh) H - sh * i) * (min (sw * j + kw) W - sw * j))) ∧
+      (specWindow li H W kh kw sh sw i j).length = (min (sh * i + kh) H - sh * i) * (min (sw * j + kw) W - sw * j) ∧
+      ∃ y, v.get (li ++ [i, j]) = some y := by
+  have hij := inShape_last2 hli hidx
+  have h1 := pool_start_lt hH hij.1
+  have h2 := pool_start_lt hW hij.2
+  have hel := avgPoolElem_eq add divn hli hH.1 hW.1 h1 h2 x hx
+  rw [specWindow_length] at hel
+  refine ⟨⟨lead ++ [poolOutSpec H kh sh ceil, poolOutSpec W kw sw ceil], avgPoolElem add divn x [kh, kw] [sh, sw]⟩,
+    ?_, rfl, hel, specWindow_length .., ?_⟩
+  · simp only [avgPool2d, hx, pool_out_shape_eq_formula lead H W kh kw sh sw ceil hH hW, Option.map_some]
+  · show ∃ y, avgPoolElem add divn x [kh, kw] [sh, sw] (li ++ [i, j]) = some y
+    rw [hel]
+    obtain ⟨win, hw, hne, _⟩ := pool_window_in_bounds lead li H W kh kw sh sw i j ceil hH hW hidx hli
+    rw [pool_elem_eq_window_reduce lead li H W kh kw sh sw i j ceil hH hW hidx hli, Option.some.injEq] at hw
+    obtain ⟨S, hS⟩ := foldFirst_some_of_ne add (l := (specWindow li H W kh kw sh sw i j).map x.get) (by rw [hw]; simpa using hne)
+    exact ⟨_, by rw [hS]; rfl⟩
+
+/-- non-vacuity: 3×3 input `1..9`, kernel 2, stride 2, ceil mode, rational pairs `(numerator, denominator)` as the
+    promoted type: the overhanging windows are divided by 2, 2 and 1, not by 4 -/
+example :
+    let x : Arr (Int × Nat) := ⟨[3, 3], fun d => match d with | [a, b] => ((3 * a + b + 1 : Nat), 1) | _ => (0, 1)⟩
+    (avgPool2d (fun p q => (p.1 + q.1, 1)) (fun p n => (p.1, n)) x [2, 2] [2, 2] true).map
+        (fun v => (v.shape, (allIdx v.shape).map v.get))
+      = some ([2, 2], [some (12, 4), some (9, 2), some (15, 2), some (9, 1)]) := by decide
+
+/-- **the divisor agrees with PyTorch's** (`avg_pool2d` without padding — nmtools has no padding argument): ATen divides
+    by `pool_size = (min(h₀ + k_h, H + p) − h₀)(min(w₀ + k_w, W + p) − w₀)` when `count_include_pad`, and by the clipped
+    window size otherwise; at `p = 0` both are the number of window elements the code divides by. -/
+theorem avg_pool_divisor_eq_torch (li : Idx) (H W kh kw sh sw i j : Nat) (hi : sh * i < H) (hj : sw * j < W) :
+    ((specWindow li H W kh kw sh sw i j).length : Int) = torchCountIncl H kh sh 0 i * torchCountIncl W kw sw 0 j ∧
+    ((specWindow li H W kh kw sh sw i j).length : Int) = torchCountExcl H kh sh 0 i * torchCountExcl W kw sw 0 j := by
+  rw [specWindow_length, Int.natCast_mul]
+  have a1 : ((min (sh * i + kh) H - sh * i : Nat) : Int) = torchCountIncl H kh sh 0 i := by unfold torchCountIncl; omega
+  have a2 : ((min (sw * j + kw) W - sw * j : Nat) : Int) = torchCountIncl W kw sw 0 j := by unfold torchCountIncl; omega
+  have b1 : ((min (sh * i + kh) H - sh * i : Nat) : Int) = torchCountExcl H kh sh 0 i := by unfold torchCountExcl; omega
+  have b2 : ((min (sw * j + kw) W - sw * j : Nat) : Int) = torchCountExcl W kw sw 0 j := by unfold torchCountExcl; omega
+  exact ⟨by rw [a1, a2], by rw [b1, b2]⟩
+
+example : ((specWindow [] 3 3 2 2 2 2 1 0).length : Int) = 2 ∧ torchCountIncl 3 2 2 0 1 * torchCountIncl 3 2 2 0 0 = 2 := by decide
 
 /-! ## convolution -/
 
